@@ -298,6 +298,21 @@ type Chain struct {
 	A  *A
 }
 `},
+		// p15: lists nested three deep with two leaves in the innermost group: repetition levels
+		// 0..3, and the only shape in which a new OUTER element has to reset two deeper indices
+		{Name: "p15", Type: "Lists3", Code: `
+type Leaf3 struct {
+	Key string
+	Val *int64
+}
+type Inner3 struct{ Leaves []Leaf3 }
+type Mid3 struct{ Inners []Inner3 }
+
+type Lists3 struct {
+	ID   int64
+	Mids []Mid3
+}
+`},
 		{Name: "p8", Type: "Wide", Code: `
 type Wide struct {
 	S1 string
